@@ -223,4 +223,127 @@ theorem src_read_variable_int (bs : List Nat) (p : Int) :
   | error e => rfl
   | ok pr => rfl
 
+/-! ### `decode_variable_int` of meta.py (used by `MetaMessage.from_bytes`) -/
+
+/-- clear the continuation bit in every element but the last: what the first `for` loop does -/
+def loAllButLast : List Nat → List Nat
+  | [] => []
+  | [x] => [x]
+  | x :: y :: r => ldiff x 128 :: loAllButLast (y :: r)
+
+theorem land_inv128 (x : Nat) : land (x : Int) (inv 128) = ((ldiff x 128 : Nat) : Int) := by
+  have : inv 128 = Int.negSucc 128 := by decide
+  rw [this]; rfl
+
+theorem src_vlq_lo_loop (F : Int → List Int → Except Err (ForInStep (List Int)))
+    (hF : ∀ i s, F i s = (do let v ← idx s i; let s' ← setIdx s i (land v (inv 128)); pure (ForInStep.yield s'))) :
+    ∀ (l pre : List Nat),
+    forIn ((List.range' pre.length (l.length - 1)).map Int.ofNat) ((pre ++ l).map Int.ofNat) F
+      = .ok ((pre ++ loAllButLast l).map Int.ofNat)
+  | [], pre => by simp [loAllButLast, pure, Except.pure]
+  | [x], pre => by simp [loAllButLast, pure, Except.pure]
+  | x :: y :: r, pre => by
+    have ih := src_vlq_lo_loop F hF (y :: r) (pre ++ [ldiff x 128])
+    have hlen : (x :: y :: r).length - 1 = r.length + 1 := by simp
+    have hlen2 : (y :: r).length - 1 = r.length := by simp
+    rw [hlen, List.range'_succ, List.map_cons, List.forIn_cons, hF]
+    have e1 := idx_mid pre x (y :: r)
+    simp only [Int.ofNat_eq_natCast] at e1 ⊢
+    have e2 := setIdx_mid pre x (y :: r) (ldiff x 128)
+    have e3 := land_inv128 x
+    simp only [e1, e3, e2, bind, Except.bind, pure, Except.pure]
+    rw [hlen2] at ih
+    simp only [List.length_append, List.length_cons, List.length_nil, Nat.zero_add, Int.ofNat_eq_natCast] at ih
+    simpa [loAllButLast] using ih
+
+/-- the second loop: `val = (val << 7) | byte` over bytes below 128 is the big-endian base-128 value -/
+def be128 : Nat → List Nat → Nat
+  | acc, [] => acc
+  | acc, b :: r => be128 (acc * 128 + b) r
+
+theorem src_vlq_fold (F : Int → Int → Except Err (ForInStep Int))
+    (hF : ∀ i s, F i s = .ok (.yield (lor (shlN s 7) i))) :
+    ∀ (l : List Nat) (acc : Nat), (∀ b ∈ l, b < 128) →
+      forIn (l.map Int.ofNat) (acc : Int) F = .ok ((be128 acc l : Nat) : Int)
+  | [], acc, _ => by simp [be128, pure, Except.pure]
+  | b :: r, acc, h => by
+    have hb : b < 128 := h b (by simp)
+    have ih := src_vlq_fold F hF r (acc * 128 + b) (fun x hx => h x (by simp [hx]))
+    rw [List.map_cons, List.forIn_cons, hF]
+    have e : lor (shlN (acc : Int) 7) (Int.ofNat b) = ((acc * 128 + b : Nat) : Int) := by
+      have := vlq_step acc b
+      have hl : land (b : Int) 127 = (b : Int) := by
+        rw [land_lit_right]; congr 1
+        have h7 : b &&& 127 = b % 128 := Nat.and_two_pow_sub_one_eq_mod b 7
+        rw [h7]; exact Nat.mod_eq_of_lt hb
+      rw [hl] at this
+      have hm : b % 128 = b := Nat.mod_eq_of_lt hb
+      rw [hm] at this
+      exact this
+    simp only [e, bind, Except.bind, be128]
+    exact ih
+
+theorem ldiff_128 : ∀ x, x < 256 → 128 ≤ x → ldiff x 128 = x % 128 := by decide +kernel
+
+theorem loAllButLast_snoc : ∀ (xs : List Nat) (z : Nat),
+    loAllButLast (xs ++ [z]) = xs.map (fun x => ldiff x 128) ++ [z]
+  | [], z => by simp [loAllButLast]
+  | [x], z => by simp [loAllButLast]
+  | x :: y :: r, z => by
+    have ih := loAllButLast_snoc (y :: r) z
+    simp only [List.cons_append] at ih ⊢
+    rw [loAllButLast, ih]; simp
+
+theorem readVlqAcc_shape : ∀ (hi : List Nat) (last acc : Nat) (rest : List Nat),
+    (∀ b ∈ hi, 128 ≤ b) → last < 128 →
+    readVlqAcc acc (hi ++ [last] ++ rest) = .ok (be128 acc (hi.map (· % 128) ++ [last]), rest)
+  | [], last, acc, rest, _, hl => by
+    have : last % 128 = last := Nat.mod_eq_of_lt hl
+    simp [readVlqAcc, hl, be128, this]
+  | b :: hi, last, acc, rest, hh, hl => by
+    have hb : ¬ b < 128 := by have := hh b (by simp); omega
+    have ih := readVlqAcc_shape hi last (acc * 128 + b % 128) rest (fun x hx => hh x (by simp [hx])) hl
+    simp only [List.cons_append, readVlqAcc, hb, if_false, List.map_cons, be128]
+    simpa using ih
+
+/-- `decode_variable_int`, as translated from the source, on the bytes of a variable-length quantity (continuation
+    bytes 128..255, then one byte below 128): the value the model's `readVlq` reads from them -/
+theorem src_decode_variable_int (hi : List Nat) (last : Nat) (hh : ∀ b ∈ hi, 128 ≤ b ∧ b < 256) (hl : last < 128) :
+    ∃ v, readVlq (hi ++ [last]) = .ok (v, []) ∧
+      Src.decode_variable_int (natsToInts (hi ++ [last])) = .ok (v : Int) := by
+  refine ⟨be128 0 (hi.map (· % 128) ++ [last]), ?_, ?_⟩
+  · have := readVlqAcc_shape hi last 0 [] (fun b hb => (hh b hb).1) hl
+    simpa [readVlq] using this
+  · unfold Src.decode_variable_int
+    simp only [bind, Except.bind, pure, Except.pure]
+    have hr : rangeInt (len (natsToInts (hi ++ [last])) - 1)
+        = (List.range' 0 ((hi ++ [last]).length - 1)).map Int.ofNat := by
+      simp only [rangeInt, len, natsToInts, List.length_map, List.range_eq_range']
+      congr 2
+      simp
+    have hlo := fun F hF => src_vlq_lo_loop F hF (hi ++ [last]) []
+    simp only [List.length_nil, List.nil_append] at hlo
+    rw [hr]
+    simp only [natsToInts]
+    rw [hlo]
+    case hF => intro i s; rfl
+    simp only []
+    have hmask : loAllButLast (hi ++ [last]) = hi.map (· % 128) ++ [last] := by
+      rw [loAllButLast_snoc]
+      congr 1
+      apply List.map_congr_left
+      intro b hb
+      exact ldiff_128 b (hh b hb).2 (hh b hb).1
+    rw [hmask]
+    have hfold := fun F hF => src_vlq_fold F hF (hi.map (· % 128) ++ [last]) 0 (by
+      intro b hb
+      simp only [List.mem_append, List.mem_map, List.mem_singleton] at hb
+      rcases hb with ⟨x, _, rfl⟩ | rfl
+      · omega
+      · exact hl)
+    have z : ((0 : Nat) : Int) = 0 := rfl
+    rw [z] at hfold
+    rw [hfold]
+    case hF => intro i s; rfl
+
 end Mido
